@@ -538,6 +538,11 @@ def check(ctx, rep):
     from rules.props import c07
     rep.rule('R04.i', 'every task that leaves a command — finished, aborted or evicted — publishes `finished` and wakes its join handles', floor=2)
     c07.check_finish_notify(rep, 'R04.i', core)
+    # R04.o: `a.then(b)` starts b, and all/and finish, when a chain whose first request was DROPPED ends: that rests on the eviction test,
+    # which reads the number of clones of the poll's waker — adaptors that keep clones are used only where tabled (shared with C07 R07.i /
+    # C13 R13.h; seeded: RequestBuilder::then_stream on flatten_unordered "to match" StreamBuilder::then_stream)
+    rep.rule('R04.o', 'adaptors that keep clones of the task waker (flatten_unordered, buffer_unordered, select_all, ..) are used only where tabled', floor=1)
+    check_waker_retaining_adaptors(rep, 'R04.o', core)
     # R04.k: the combinators host commands inside tasks; a hosting task is kept alive only by its wakers doing the whole job however they
     # are woken (shared with C05 R05.b)
     from rules.props import c05 as _c05
